@@ -726,6 +726,20 @@ def _whole_files(ctx: Ctx) -> None:
             parts = [ctx.rng.choice(c20_files.NASTY)[1] for _ in range(k)]
             descs.append((f"random{i}", "\n\n".join(parts)))
     c20_files.run(ctx, descs, use_compilers=True)
+    _joined_strings(ctx)
+
+
+def _joined_strings(ctx: Ctx) -> None:
+    """The literals written for formatted strings (patterns and invariants): harness/props/c20_joined.py."""
+    from harness.props import c20_joined
+
+    t_start = time.time()
+    ctx.assumptions.append(
+        "formatted strings: the literals of Go and C# are judged by the scanners of harness/props/c20_joined.py only (written from the language "
+        "specifications, in agreement with node and javac+java on the TypeScript and Java literals of every run, and lexing all recorded outputs)"
+    )
+    c20_joined.run(ctx, c20_joined.specs_for(ctx))
+    ctx.note(f"joined strings: {time.time() - t_start:.1f}s")
 
 
 def oracle(ctx: Ctx) -> None:
@@ -737,6 +751,12 @@ def oracle(ctx: Ctx) -> None:
 
 def replay(ctx: Ctx, data: Dict[str, Any]) -> Any:
     inp = data["failure"]["input"] if "failure" in data else data
+    if "joined" in inp:
+        from harness.props import c20_joined
+
+        before = len(ctx.failures)
+        c20_joined.run(ctx, [("replay", inp["joined"])])
+        return {"joined-string failures": ctx.failures[before:]}
     if "desc" in inp or "model" in inp:
         from harness.props import c20_files
 
